@@ -187,6 +187,25 @@ Theorem tuning_direction_below : forall (cfg : opcfg R) (os : opstate R) ap,
 Proof. exact tuning_direction_down_l. Qed.
 Print Assumptions tuning_direction_below.
 
+(* HMC with an AdaptiveStepSize adaptor (its own Robbins-Monro step on ln(step size)): acceptance
+   probability >= target never shrinks the step size. *)
+Theorem tuning_direction_adaptive : forall (cfg : opcfg R) (os : opstate R) ap tgt,
+  k_tuner cfg = TAdaptive tgt -> 0 < o_field os -> tgt <= ap ->
+  0 < o_field (tune NumR cfg os ap) /\ o_field os <= o_field (tune NumR cfg os ap).
+Proof. exact tuning_direction_adaptive_l. Qed.
+Print Assumptions tuning_direction_adaptive.
+(* HMC with a DualAveragingStepSize adaptor (Nesterov dual averaging, as in Stan).  The literal
+   "after >= before" is NOT a property of dual averaging (the iterate also forgets its history at
+   rate 1/(t + t0)); what holds, and is what "moves the acceptance rate toward the target" means for
+   it, is monotone response: from the same state, a higher acceptance probability never gives a
+   smaller next step size (tuning_direction_partial for this adaptor). *)
+Theorem tuning_direction_dual_averaging_partial :
+  forall (cfg : opcfg R) (os : opstate R) ap1 ap2 delta t0 mu gamma,
+  k_tuner cfg = TDual delta t0 mu gamma -> 0 < gamma -> 0 <= t0 -> ap1 <= ap2 ->
+  o_field (tune NumR cfg os ap1) <= o_field (tune NumR cfg os ap2).
+Proof. exact tuning_dual_monotone_l. Qed.
+Print Assumptions tuning_direction_dual_averaging_partial.
+
 (* The model of the Dirichlet operator uses the CORRECT re-parameterisation (-ln s, exp(-v)).
    For the shipped one the statement is conditional on what a correct re-parameterisation
    satisfies; the check tries to discharge the two hypotheses about the regenerated expressions
